@@ -351,8 +351,10 @@ FAULTS = {
     "category": ["f > x:N", "f(a:N) > x", "f:N > x", "f > x:g", "f(!x:s)", "g > f(a:lt, !x)", "f > $v:N"],
     "function": ["nosuch > x", "g > nosuch > x", "f.nosuch > x", "K.nosuch > w", "nosuch.attr > x",
                  "g(y) > nosuch(a) > x", "obj.nosuch > w", "nosuch(!x)"],
-    "focus2": ["f(!!x)", "f(a, !!x)", "g > f(!!x)", "f(!!#exit)", "g(!!y, f(a))", "K.meth(!!w)"],
-    "nofocus-override": ["f(x)", "f(a, x)", "g(y, f(x))", "f()", "h(i, t)", "K.meth(w)"],
+    "focus2": ["f(!!x)", "f(a, !!x)", "g > f(!!x)", "f(!!#exit)", "g(!!y, f(a))", "K.meth(!!w)", "f((x), !!y)",
+               "f((a), (x), !!y)"],
+    "nofocus-override": ["f(x)", "f(a, x)", "g(y, f(x))", "f()", "h(i, t)", "K.meth(w)", "f((x))", "f(a, (x))",
+                         "f((x as z))", "g((y), f((x)))"],
 }
 
 
